@@ -13,14 +13,14 @@ RULE = ("deterministic virtual-clock event loop; a real BaseClient (recording se
         "process_message; timeout in {none, 2.25, 4.25, 7.25} (never tying with the grid), polling in {off, delay 1/interval 1, delay "
         "2/interval 3}, condition kind {expect, initial, check} x event kind {value, state, value+state = a check that also reads the vector's state, where one "
         "message changes both, any = no element filter and default event type, where the "
-        "non-matching events are re-definitions raising value, state and definition events}. In every fifth run each non-matching event is preceded by the whole device being deleted (delProperty without a name) and defined again. The complete grid is enumerated (quick: 6 "
+        "non-matching events are re-definitions raising value, state and definition events}. In every seventh run the client itself writes and submits each matching value just before the device confirms it. In every fifth run each non-matching event is preceded by the whole device being deleted (delProperty without a name) and defined again. The complete grid is enumerated (quick: 6 "
         "points, thorough: 7 points). Oracle: the wait returns the FIRST matching event object (identity, from a "
         "spy tapping trigger_event; the callback registry holds only what the waits registered) at that event's virtual instant, or raises at exactly the timeout instant - never both, never neither; getProperties "
         "polls happen exactly at delay + k*interval while waiting and never after completion; no callback stays registered. "
         "non-trivial = a run in which at least one event was injected; distinct = hash(pattern, timeout, polling, condition)")
 ASSUMPTIONS = ["exact ties between an event and the timeout instant are excluded by off-grid constants"]
 REQUIRED_EVENTS = ["runs", "waits_completed_by_event", "waits_timed_out", "waits_still_pending_without_timeout", "polls_observed",
-                   "batches_with_two_matches", "redefinitions_injected", "whole_device_deletions_during_a_wait"]
+                   "batches_with_two_matches", "redefinitions_injected", "whole_device_deletions_during_a_wait", "values_written_by_the_client_and_then_confirmed"]
 EXHAUSTIVE_NOTE = "every assignment of the five slot kinds to every grid point x timeouts x polling x conditions (quick: 6 grid points; thorough: 7)"
 
 QUICK_SHARDS = 4
@@ -205,6 +205,8 @@ def run_one(ctx, case):
     redefs = [0]
     two_match_batches = [0]
     whole_device_deletions = [0]
+    client_writes = [0]
+    match_times = []          # instants at which the harness injected a report that satisfies the FIRST wait's condition
 
     async def main():
         feeders = [Feeder(c, k) for c, k in conds]
@@ -249,6 +251,17 @@ def run_one(ctx, case):
                 msg = feeder.make(match)
                 if msg is None:
                     msg = feeder.make(not match) if False else None
+                if msg is not None and case.get("client_writes") and match and getattr(msg, "children", None):
+                    # the application itself asked for this value: it writes and submits it, the device then confirms it
+                    try:
+                        cel = client.get_device("D").get_vector("P").get_element("E")
+                        cel.value = msg.children[0].value
+                        client.get_device("D").get_vector("P").submit()
+                        client_writes[0] += 1
+                    except Exception as e:
+                        errors.append(f"client write raised {e!r}")
+                if msg is not None and match:
+                    match_times.append(loop.time())
                 if msg is not None:
                     injected[0] += 1
                     if type(msg).__name__.startswith("Def"):
@@ -286,10 +299,18 @@ def run_one(ctx, case):
     ctx.count("batches_with_two_matches", two_match_batches[0])
     ctx.count("redefinitions_injected", redefs[0])
     ctx.count("whole_device_deletions_during_a_wait", whole_device_deletions[0])
+    ctx.count("values_written_by_the_client_and_then_confirmed", client_writes[0])
     # ---- oracle
     for rec in results:
         cond, kind = rec["cond"], rec["kind"]
         first = next(((t, ev) for (t, ev) in spy if is_match(cond, kind, ev)), None)
+        if rec["idx"] == 0 and match_times and (first is None or first[0] > match_times[0] + 1e-9):
+            # independent of the events actually raised: the harness KNOWS it reported a change that satisfies this wait's condition
+            ctx.violate("matching-report-raised-no-matching-event" + (":after-the-client-wrote-that-value" if case.get("client_writes") else ""),
+                        f"a report satisfying the condition was delivered at t={match_times[0]} but the first matching event "
+                        f"{'came at t=%s' % first[0] if first else 'never came'}", dict(case, wait=0),
+                        {"spy": [(t, type(ev).__name__, getattr(ev, "new_value", getattr(ev, "new_state", None))) for t, ev in spy][:12]})
+            return False
         tlimit = timeout
         if first is not None and (tlimit is None or first[0] < tlimit):
             want = ("event", first[0], first[1])
@@ -388,7 +409,7 @@ def run(ctx):
                 if not ctx.thorough and (i % 2):
                     picks = picks[:1]
                 one_case(ctx, {"pattern": list(pattern), "timeout": timeout, "polling": list(polling) if polling else None,
-                               "conds": [list(p) for p in picks], "device_vanishes": i % 5 == 3})
+                               "conds": [list(p) for p in picks], "device_vanishes": i % 5 == 3, "client_writes": i % 7 == 5})
                 if i % 1499 == 0:
                     ctx.sample({"pattern": list(pattern), "timeout": timeout, "polling": polling, "conditions": picks})
                 if ctx.enough():
